@@ -7,53 +7,123 @@ import StorageModel.C16.Lemmas
   unchanged.  The flag is fixed at creation - no update from any context turns an ordinary entity
   into a system entity or back - and ordinary entities are unaffected by the constraint."
 
-  The theorems are about the executable model in StorageModel/C16/Model.lean (checkOperation on the
-  STORED flag; ProcessBeforeUpdate for updates — the error lands in the bucket before PersistEntity
-  runs —, ProcessAfterUpdate for creates — the entity is already written when the check fails —,
-  ProcessBeforeDelete; SetBaseValues / CreateBaseValues / UpdateBaseValues of boltz/base.go branch by
-  branch: CreateBaseValues writes the flag and — steered by the entity's `Migrate` field — either the
-  clock or the entity's own timestamps; UpdateBaseValues writes `updatedAt` and the tags and nothing
-  else, whatever `IsSystem` / `Migrate` / timestamps the in-memory entity carries).  `Vals` is the
-  complete in-memory entity; every theorem quantifies over all of it.  A history is
-  a list of `Db.Update` bodies, each with a mode: the body aborts at the first error, or the caller
-  ignores errors (except a refused create) and commits anyway.
+  The theorems are about the executable model in StorageModel/C16/Model.lean: a universe of three
+  stores — the constrained store S, a second store O that S refers to through a cascade-delete
+  foreign key and a link collection, and a child store C of S — with checkOperation on the STORED
+  flag (ProcessBeforeUpdate for updates — the error lands in the bucket before PersistEntity runs —,
+  ProcessAfterUpdate for creates — the entity is already written when the check fails —,
+  ProcessBeforeDelete), SetBaseValues / CreateBaseValues / UpdateBaseValues of boltz/base.go branch
+  by branch, and **every indirect path**: the cascaded `DeleteById` of the referrers when an owner is
+  deleted (with the context `fkDeleteCascadeConstraint` hands on), `DeleteWhere`, create / update /
+  delete through the child store (a child create over an existing parent re-runs `CreateBaseValues`
+  on the parent's bucket), link clean-up, nested `Db.Update` with a system context (= the
+  per-operation context flag).  `Vals` is the complete in-memory entity; every theorem quantifies
+  over all of it.  A history is a list of `Db.Update` bodies, each with a mode: the body aborts at
+  the first error, or the caller ignores the errors that were raised before anything was written
+  (and commits anyway).
 -/
+set_option linter.unusedSectionVars false
+set_option linter.unusedSimpArgs false
+set_option linter.unnecessarySimpa false
+
 namespace StorageModel.Properties.C16
 open StorageModel StorageModel.C16
 
 section
-variable {K N T : Type} [DecidableEq K]
+variable {K N T : Type} [DecidableEq K] [DecidableEq N] [KeyOrd K]
 
 /-! ## refusal from an ordinary context -/
 
-/-- **create / update / delete of a system entity from an ordinary context fail**; the refused
-    update and delete do not even touch the uncommitted state. -/
+theorem mem_refs {s : St K N T} {id o : K} {e : Ent K N T} (hg : s.ents.get id = some e) (ho : e.owner = some o) :
+    id ∈ refs s o := by
+  unfold refs
+  rw [mem_sortKeys]
+  refine List.mem_map.mpr ⟨(id, e), ?_, rfl⟩
+  exact List.mem_filter.mpr ⟨Map.get_some_mem hg, by simp [ho]⟩
+
+theorem mem_matching {s : St K N T} {id : K} {e : Ent K N T} {q : Query K N} (hg : s.ents.get id = some e)
+    (hq : q.eval e = true) : id ∈ matching s q := by
+  unfold matching
+  rw [mem_sortKeys]
+  refine List.mem_map.mpr ⟨(id, e), ?_, rfl⟩
+  exact List.mem_filter.mpr ⟨Map.get_some_mem hg, hq⟩
+
+theorem any_refused_of_mem {s : St K N T} {ids : List K} {id : K} {e : Ent K N T} (hm : id ∈ ids)
+    (hg : s.ents.get id = some e) (hs : e.isSystem = true) : ids.any (fun y => refused s y false) = true := by
+  rw [List.any_eq_true]
+  exact ⟨id, hm, by rw [refused_of_get hg, hs]; rfl⟩
+
+/-- **create / update / delete of a system entity from an ordinary context fail** — directly,
+    through the child store, through the cascade of a foreign key and through a delete by query;
+    the refused update and delete do not even touch the uncommitted state. -/
 theorem system_needs_system_ctx (s : St K N T) (id : K) :
-    -- create with the system flag (id fresh, not blank), whatever else the entity carries
-    (∀ v : Vals N T, v.flag = true → s.get id = none → (step s (.create false id false v)).err = some .sysCreate) ∧
-    -- update of an entity whose STORED flag is set, whatever the update carries
-    (∀ e (v : Vals N T) sn st, s.get id = some e → e.isSystem = true →
-        step s (.update false id v sn st) = { st := s, err := some .sysUpdate }) ∧
-    -- delete
-    (∀ e, s.get id = some e → e.isSystem = true →
-        step s (.delete false id) = { st := s, err := some .sysDelete }) := by
-  refine ⟨?_, ?_, ?_⟩
-  · intro v hv hg; rw [step_create_new hg, hv]; simp
-  · intro e v sn st hg hs; rw [step_update_found hg, hs]; simp
-  · intro e hg hs; rw [step_delete_found hg, hs]; simp
+    -- create with the system flag (id fresh, not blank), whatever else the entity carries, through
+    -- S or through the child store
+    (∀ v : Vals K N T, v.flag = true → s.ents.get id = none →
+        ((step s (.create false id false v)).err = some .sysCreate ∨
+          (step s (.create false id false v)).err = some .noOwner) ∧
+        ∀ lvl, ((step s (.ccreate false id false v lvl)).err = some .sysCreate ∨
+          (step s (.ccreate false id false v lvl)).err = some .noOwner)) ∧
+    -- every operation that reaches an entity whose STORED flag is set
+    (∀ e, s.ents.get id = some e → e.isSystem = true →
+        -- update, whatever the update carries, through S …
+        (∀ (v : Vals K N T) sn st so, step s (.update false id v sn st so) = { st := s, err := some .sysUpdate }) ∧
+        -- … or through the child store (not found when there is no child data)
+        (∀ (v : Vals K N T) sn st so sl lvl, ∃ err, step s (.cupdate false id v sn st so sl lvl) = { st := s, err := some err }) ∧
+        -- delete through S or through the child store
+        step s (.delete false id) = { st := s, err := some .sysDelete } ∧
+        step s (.cdelete false id) = { st := s, err := some .sysDelete } ∧
+        -- extending it through the child store, whatever the in-memory entity says about the flag
+        (∀ (v : Vals K N T) lvl, (step s (.ccreate false id false v lvl)).err ≠ none) ∧
+        -- deleting the owner it refers to
+        (∀ o, e.owner = some o → o ∈ s.owners → (step s (.odelete false o)).err = some .viaSysDelete) ∧
+        -- deleting by a query that matches it
+        (∀ q : Query K N, q.eval e = true → (step s (.deleteWhere false q)).err = some .viaSysDelete)) := by
+  refine ⟨?_, ?_⟩
+  · intro v hv hg
+    refine ⟨?_, ?_⟩
+    · rw [step_create_new hg, createOn_eq, hv]
+      cases ownerOk s v.owner <;> simp
+    · intro lvl
+      rw [step_ccreate_new hg, createOn_eq, hv]
+      cases ownerOk s v.owner <;> simp
+  · intro e hg hs
+    refine ⟨?_, ?_, ?_, ?_, ?_, ?_, ?_⟩
+    · intro v sn st so; rw [step_update_found hg, updateOn_eq hg, hs]; simp
+    · intro v sn st so sl lvl
+      rw [step_cupdate_found hg]
+      cases e.level.isNone with
+      | true => exact ⟨.notFound, by simp⟩
+      | false => rw [updateOn_eq hg, hs]; exact ⟨.sysUpdate, by simp⟩
+    · rw [step_delete, deleteOne_found hg, hs]; simp
+    · rw [step_cdelete, deleteOne_found hg, hs]; simp
+    · intro v lvl
+      rw [step_ccreate_found hg]
+      cases e.level.isSome with
+      | true => simp
+      | false =>
+        rw [createOn_eq, hs]
+        cases ownerOk s v.owner <;> simp
+    · intro o ho hm
+      rw [step_odelete_found hm, any_refused_of_mem (mem_refs hg ho) hg hs]; simp
+    · intro q hq
+      rw [step_deleteWhere, any_refused_of_mem (mem_matching hg hq) hg hs]; simp
 
 /-- … **and leave the entity unchanged**: a transaction in which such an attempt is reached
     commits nothing if its body aborts on errors; if the caller ignores the error of a refused
     update or delete and commits anyway, that operation has changed nothing (previous theorem);
-    a refused create aborts the body in either mode. -/
+    every failure that leaves partial writes (refused create, refused cascade, …) aborts the body
+    in either mode. -/
 theorem refused_tx_unchanged (s : St K N T) (k : Bool) (ops : List (Op K N T)) (h : (runOps k s ops).2 = true) :
     commitTx s (k, ops) = s := commitTx_failed h
 
 theorem refused_aborts (k : Bool) (s : St K N T) (op : Op K N T) (rest : List (Op K N T)) (e : Err)
-    (he : (step s op).err = some e) (hk : k = false ∨ e = .sysCreate) :
+    (he : (step s op).err = some e) (hk : k = false ∨ e.ignorable = false) :
     (runOps k s (op :: rest)).2 = true := by
   rw [runOps_cons_err he]
-  rcases hk with rfl | rfl <;> simp
+  rcases hk with rfl | h
+  · simp
+  · simp [h]
 
 /-- runs compose: a failure anywhere in an aborting body fails the body -/
 theorem runOps_append_failed (k : Bool) (s : St K N T) (pre post : List (Op K N T))
@@ -84,95 +154,583 @@ theorem system_needs_system_ctx_tx (s : St K N T) (pre rest : List (Op K N T)) (
   apply runOps_append_failed _ _ _ _ _ hpre
   exact refused_aborts false _ op rest e he (Or.inl rfl)
 
+/-! ## no operation issued from an ordinary context — directly or indirectly — changes or deletes a
+    system entity -/
+
+/-- the operation is issued from an ordinary context (link operations, creating an owner and reads
+    involve no context at all: they count as ordinary) -/
+def ordinaryOp : Op K N T → Bool
+  | .create sys .. => !sys
+  | .update sys .. => !sys
+  | .delete sys _ => !sys
+  | .ccreate sys .. => !sys
+  | .cupdate sys .. => !sys
+  | .cdelete sys _ => !sys
+  | .odelete sys _ => !sys
+  | .deleteWhere sys _ => !sys
+  | .ocreate .. => true
+  | .link .. => true
+  | .unlink .. => true
+  | .read _ => true
+
+/-- `e'` is `e` up to the link set (link collections take a bare transaction: no context is
+    involved, the constraint does not apply to them) -/
+def SameButLinks (e e' : Ent K N T) : Prop := e' = { e with peers := e'.peers }
+
+theorem sameButLinks_refl (e : Ent K N T) : SameButLinks e e := rfl
+
+theorem sameButLinks_trans {e e1 e2 : Ent K N T} (h1 : SameButLinks e e1) (h2 : SameButLinks e1 e2) : SameButLinks e e2 := by
+  unfold SameButLinks at *
+  rw [h2, h1]
+
+theorem sameButLinks_isSystem {e e' : Ent K N T} (h : SameButLinks e e') : e'.isSystem = e.isSystem := by
+  unfold SameButLinks at h; rw [h]; rfl
+
+/-- **one successful operation from an ordinary context — on whatever entity, through whatever
+    store — leaves every system entity in place and unchanged** (flag, name, tags, timestamps,
+    owner, child data) -/
+theorem ordinary_step_preserves_system (s : St K N T) (op : Op K N T) (ho : ordinaryOp op = true)
+    (hok : (step s op).err = none) (x : K) (e : Ent K N T) (hg : s.ents.get x = some e) (hs : e.isSystem = true) :
+    ∃ e', (step s op).st.ents.get x = some e' ∧ SameButLinks e e' := by
+  have keep : ∀ (id : K) (e1 : Ent K N T), id ≠ x → ∃ e', (s.putEnt id e1).ents.get x = some e' ∧ SameButLinks e e' := by
+    intro id e1 hne
+    exact ⟨e, by rw [putEnt_ents, Map.get_put]; simp [hne, hg], rfl⟩
+  cases op with
+  | create sys id blank v =>
+    cases blank with
+    | true => rw [step_create_blank] at hok; cases hok
+    | false =>
+      cases hgi : s.ents.get id with
+      | some e0 => rw [step_create_exists hgi] at hok; cases hok
+      | none =>
+        rw [step_create_new hgi] at hok ⊢
+        rw [(createOn_ok hok).1]
+        exact keep id _ (by intro h; subst h; rw [hg] at hgi; cases hgi)
+  | ccreate sys id blank v lvl =>
+    simp only [ordinaryOp, Bool.not_eq_true'] at ho
+    subst ho
+    cases blank with
+    | true => rw [step_ccreate_blank] at hok; cases hok
+    | false =>
+      cases hgi : s.ents.get id with
+      | some e0 =>
+        rw [step_ccreate_found hgi] at hok ⊢
+        split at hok
+        · cases hok
+        · rename_i hl
+          simp only [hl, if_false]
+          have h3 := (createOn_ok hok).2.2
+          rw [(createOn_ok hok).1]
+          refine keep id _ ?_
+          intro h; subst h
+          rw [hg] at hgi; cases hgi
+          rw [hs] at h3; simp at h3
+      | none =>
+        rw [step_ccreate_new hgi] at hok ⊢
+        rw [(createOn_ok hok).1]
+        exact keep id _ (by intro h; subst h; rw [hg] at hgi; cases hgi)
+  | update sys id v sn st so =>
+    simp only [ordinaryOp, Bool.not_eq_true'] at ho
+    subst ho
+    cases hgi : s.ents.get id with
+    | none => rw [step_update_missing hgi] at hok; cases hok
+    | some e0 =>
+      rw [step_update_found hgi] at hok ⊢
+      have h2 := (updateOn_ok hgi hok).2
+      rw [(updateOn_ok hgi hok).1]
+      refine keep id _ ?_
+      intro h; subst h
+      rw [hg] at hgi; cases hgi
+      rw [hs] at h2; simp at h2
+  | cupdate sys id v sn st so sl lvl =>
+    simp only [ordinaryOp, Bool.not_eq_true'] at ho
+    subst ho
+    cases hgi : s.ents.get id with
+    | none => rw [step_cupdate_missing hgi] at hok; cases hok
+    | some e0 =>
+      rw [step_cupdate_found hgi] at hok ⊢
+      split at hok
+      · cases hok
+      · rename_i hl
+        simp only [hl, if_false]
+        have h2 := (updateOn_ok hgi hok).2
+        rw [(updateOn_ok hgi hok).1]
+        refine keep id _ ?_
+        intro h; subst h
+        rw [hg] at hgi; cases hgi
+        rw [hs] at h2; simp at h2
+  | delete sys id =>
+    simp only [ordinaryOp, Bool.not_eq_true'] at ho
+    subst ho
+    rw [step_delete] at hok ⊢
+    obtain ⟨e0, hgi, h2, hd⟩ := deleteOne_ok hok
+    rw [hd]
+    refine ⟨e, ?_, rfl⟩
+    rw [delEnt_ents, Map.get_del]
+    have : id ≠ x := by
+      intro h; subst h
+      rw [hg] at hgi; cases hgi
+      rw [hs] at h2; simp at h2
+    simp [this, hg]
+  | cdelete sys id =>
+    simp only [ordinaryOp, Bool.not_eq_true'] at ho
+    subst ho
+    rw [step_cdelete] at hok ⊢
+    obtain ⟨e0, hgi, h2, hd⟩ := deleteOne_ok hok
+    rw [hd]
+    refine ⟨e, ?_, rfl⟩
+    rw [delEnt_ents, Map.get_del]
+    have : id ≠ x := by
+      intro h; subst h
+      rw [hg] at hgi; cases hgi
+      rw [hs] at h2; simp at h2
+    simp [this, hg]
+  | ocreate id blank =>
+    rw [step_ocreate]
+    split
+    · exact ⟨e, hg, rfl⟩
+    · split
+      · exact ⟨e, hg, rfl⟩
+      · exact ⟨e, hg, rfl⟩
+  | odelete sys o =>
+    simp only [ordinaryOp, Bool.not_eq_true'] at ho
+    subst ho
+    by_cases hm : o ∈ s.owners
+    · rw [step_odelete_found hm] at hok ⊢
+      split at hok
+      · cases hok
+      · rename_i ha
+        rw [if_neg ha]
+        have hx : x ∉ refs s o := by
+          intro hx
+          exact ha (any_refused_of_mem hx hg hs)
+        refine ⟨unlinkEnt o e, ?_, rfl⟩
+        rw [get_unlinkAll, Map.get_delAll]
+        simp [hx, hg]
+    · rw [step_odelete_missing hm] at hok; cases hok
+  | deleteWhere sys q =>
+    simp only [ordinaryOp, Bool.not_eq_true'] at ho
+    subst ho
+    rw [step_deleteWhere] at hok ⊢
+    split at hok
+    · cases hok
+    · rename_i ha
+      rw [if_neg ha]
+      have hx : x ∉ matching s q := by
+        intro hx
+        exact ha (any_refused_of_mem hx hg hs)
+      refine ⟨e, ?_, rfl⟩
+      rw [Map.get_delAll]
+      simp [hx, hg]
+  | link sid oid =>
+    cases hgi : s.ents.get sid with
+    | none => rw [step_link_missing hgi] at hok; cases hok
+    | some e0 =>
+      rw [step_link_found hgi] at hok ⊢
+      split at hok
+      · rename_i hm
+        simp only [hm, if_true]
+        by_cases hx : sid = x
+        · subst hx
+          rw [hg] at hgi; cases hgi
+          exact ⟨{ e with peers := oid :: e.peers.filter (· ≠ oid) }, by rw [putEnt_ents, Map.get_put]; simp, rfl⟩
+        · exact keep sid _ hx
+      · cases hok
+  | unlink sid oid =>
+    cases hgi : s.ents.get sid with
+    | none => rw [step_unlink_missing hgi] at hok; cases hok
+    | some e0 =>
+      rw [step_unlink_found hgi]
+      by_cases hx : sid = x
+      · subst hx
+        rw [hg] at hgi; cases hgi
+        exact ⟨unlinkEnt oid e, by rw [putEnt_ents, Map.get_put]; simp, rfl⟩
+      · exact keep sid _ hx
+  | read id => exact ⟨e, hg, rfl⟩
+
+/-- … and a cascade or a delete by query never removes a system entity on behalf of an ordinary
+    context, **not even in the partial state a refused batch leaves in the open transaction** -/
+theorem cascade_never_deletes_system (s : St K N T) (ids : List K) (x : K) (e : Ent K N T)
+    (hg : s.ents.get x = some e) (hs : e.isSystem = true) :
+    (delMany false s ids).1.ents.get x = some e := delMany_keeps_system s ids hg hs
+
+theorem ordinary_runOps_preserves_system (k : Bool) (s : St K N T) (ops : List (Op K N T))
+    (ho : ∀ op ∈ ops, ordinaryOp op = true) (hok : (runOps k s ops).2 = false)
+    (x : K) (e e0 : Ent K N T) (hg : s.ents.get x = some e0) (hsim : SameButLinks e e0) (hs : e.isSystem = true) :
+    ∃ e', (runOps k s ops).1.ents.get x = some e' ∧ SameButLinks e e' := by
+  induction ops generalizing s e0 with
+  | nil => exact ⟨e0, hg, hsim⟩
+  | cons op ops ih =>
+    have ho' : ∀ op' ∈ ops, ordinaryOp op' = true := fun o h => ho o (List.mem_cons_of_mem _ h)
+    have hs0 : e0.isSystem = true := by rw [sameButLinks_isSystem hsim]; exact hs
+    cases he : (step s op).err with
+    | none =>
+      rw [runOps_cons_ok he] at hok ⊢
+      obtain ⟨e1, hg1, hsim1⟩ := ordinary_step_preserves_system s op (ho op (List.mem_cons_self ..)) he x e0 hg hs0
+      exact ih _ ho' hok e1 hg1 (sameButLinks_trans hsim hsim1)
+    | some err =>
+      rw [runOps_cons_err he] at hok ⊢
+      by_cases hk : (k && err.ignorable) = true
+      · rw [if_pos hk] at hok ⊢
+        simp only [Bool.and_eq_true] at hk
+        have hst := step_err_state he hk.2
+        rw [hst] at hok ⊢
+        exact ih s ho' hok e0 hg hsim
+      · rw [if_neg hk] at hok; simp at hok
+
+/-- **no transaction whose operations are all issued from ordinary contexts — in either mode, with
+    failing, ignored and indirect operations in any order — changes or deletes a system entity or
+    its flag**: after `Db.Update` every system entity is still there with the same flag, name, tags,
+    timestamps, owner and child data -/
+theorem ordinary_tx_preserves_system (s : St K N T) (k : Bool) (ops : List (Op K N T))
+    (ho : ∀ op ∈ ops, ordinaryOp op = true) (x : K) (e : Ent K N T) (hg : s.ents.get x = some e)
+    (hs : e.isSystem = true) :
+    ∃ e', (commitTx s (k, ops)).ents.get x = some e' ∧ SameButLinks e e' := by
+  cases hf : (runOps k s ops).2 with
+  | true => rw [commitTx_failed hf]; exact ⟨e, hg, rfl⟩
+  | false =>
+    rw [commitTx_ok hf]
+    exact ordinary_runOps_preserves_system k s ops ho hf x e e hg rfl hs
+
+/-- the same for every history of such transactions -/
+theorem ordinary_history_preserves_system (txs : List (Bool × List (Op K N T))) (s : St K N T)
+    (ho : ∀ tx ∈ txs, ∀ op ∈ tx.2, ordinaryOp op = true) (x : K) (e : Ent K N T) (hg : s.ents.get x = some e)
+    (hs : e.isSystem = true) :
+    ∃ e', (runHist s txs).ents.get x = some e' ∧ SameButLinks e e' := by
+  induction txs generalizing s e with
+  | nil => exact ⟨e, hg, rfl⟩
+  | cons tx txs ih =>
+    obtain ⟨e1, hg1, hsim1⟩ := ordinary_tx_preserves_system s tx.1 tx.2 (ho tx (List.mem_cons_self ..)) x e hg hs
+    have hs1 : e1.isSystem = true := by rw [sameButLinks_isSystem hsim1]; exact hs
+    obtain ⟨e2, hg2, hsim2⟩ := ih (commitTx s tx) (fun t ht => ho t (List.mem_cons_of_mem _ ht)) e1 hg1 hs1
+    exact ⟨e2, hg2, sameButLinks_trans hsim1 hsim2⟩
+
 /-! ## a system context may do everything -/
 
 /-- **from a system context create, update and delete of a system entity succeed** and do what
-    they say -/
+    they say; so does the delete of an owner that system entities refer to -/
 theorem system_ctx_allowed (s : St K N T) (id : K) :
-    (∀ v : Vals N T, s.get id = none →
+    (∀ v : Vals K N T, s.ents.get id = none → ownerOk s v.owner = true →
         (step s (.create true id false v)).err = none ∧
-        ((step s (.create true id false v)).st.get id).map Ent.isSystem = some v.flag ∧
-        ((step s (.create true id false v)).st.get id).map Ent.name = some v.name) ∧
-    (∀ e (v : Vals N T), s.get id = some e →
-        (step s (.update true id v true true)).err = none ∧
-        ((step s (.update true id v true true)).st.get id).map Ent.name = some v.name ∧
-        ((step s (.update true id v true true)).st.get id).map Ent.flag = some e.flag) ∧
-    (∀ e, s.get id = some e →
-        (step s (.delete true id)).err = none ∧ (step s (.delete true id)).st.get id = none) := by
-  refine ⟨?_, ?_, ?_⟩
-  · intro v hg
-    rw [step_create_new hg]
-    simp only [Bool.not_true, Bool.and_false, Bool.false_eq_true, if_false, Map.get_put, if_true, Option.map_some,
-      newEnt_isSystem, true_and]
-    unfold newEnt persist; simp
+        ((step s (.create true id false v)).st.ents.get id).map Ent.isSystem = some v.flag ∧
+        ((step s (.create true id false v)).st.ents.get id).map Ent.name = some v.name) ∧
+    (∀ e (v : Vals K N T), s.ents.get id = some e →
+        (step s (.update true id v true true false)).err = none ∧
+        ((step s (.update true id v true true false)).st.ents.get id).map Ent.name = some v.name ∧
+        ((step s (.update true id v true true false)).st.ents.get id).map Ent.flag = some e.flag) ∧
+    (∀ e, s.ents.get id = some e →
+        (step s (.delete true id)).err = none ∧ (step s (.delete true id)).st.ents.get id = none) ∧
+    (∀ o, o ∈ s.owners → (step s (.odelete true o)).err = none ∧
+        ∀ y ∈ refs s o, (step s (.odelete true o)).st.ents.get y = none) := by
+  have hany : ∀ ids : List K, ids.any (fun y => refused s y true) = false := by
+    intro ids
+    induction ids with
+    | nil => rfl
+    | cons a l _ => simp [refused_sys]
+  refine ⟨?_, ?_, ?_, ?_⟩
+  · intro v hg ho
+    rw [step_create_new hg, createOn_eq, ho]
+    simp only [Bool.not_true, Bool.and_false, Bool.false_eq_true, if_false, putEnt_ents, Map.get_put, if_true,
+      Option.map_some, mkEnt_isSystem, blankEnt_isSystem, Bool.or_false, true_and]
+    unfold mkEnt persist; simp
   · intro e v hg
-    rw [step_update_found hg]
-    simp only [Bool.not_true, Bool.and_false, Bool.false_eq_true, if_false, Map.get_put, if_true, Option.map_some,
-      persist_update_flag, true_and, and_true]
-    unfold persist; simp
+    rw [step_update_found hg, updateOn_eq hg]
+    have hown : (updEnt v true true false none e).owner = e.owner := by rw [updEnt_owner]; simp
+    simp only [hown, Bool.not_true, Bool.and_false, Bool.false_eq_true, if_false, putEnt_ents, Map.get_put, if_true,
+      Option.map_some, updEnt_flag, true_and, and_true, ne_eq, not_true_eq_false, decide_false, Bool.false_and]
+    unfold updEnt persist; simp
   · intro e hg
-    rw [step_delete_found hg]
+    rw [step_delete, deleteOne_found hg]
     simp [Map.get_del]
+  · intro o ho
+    rw [step_odelete_found ho, hany]
+    simp only [Bool.false_eq_true, if_false, true_and]
+    intro y hy
+    rw [get_unlinkAll, Map.get_delAll]
+    simp [hy]
 
 /-! ## the flag is fixed at creation -/
 
 /-- **For every history** — any mix of contexts, several operations per transaction, updates
-    carrying a flipped flag with any field checker, failing and ignored operations — every entity
-    that exists at the end reads back exactly the IsSystem flag its creating `Create` call carried
+    carrying a flipped flag with any field checker, operations through the child store, cascades,
+    deletes by query, failing and ignored operations — every entity that exists at the end reads
+    back exactly the IsSystem flag on record for it: the flag its creating `Create` call carried
     (`runHistG` runs the same history while recording, for each existing entity, the flag of the
-    call that created it; `runHistG_fst` shows it computes the same states). -/
+    call that created it, a child-store `Create` over an existing parent adding its flag to the one
+    on record; `runHistG_fst` shows it computes the same states).  Which calls can change the record
+    of an existing entity at all: `flag_change_needs_system_child_create`. -/
 theorem flag_immutable (h : List (Bool × List (Op K N T))) (id : K) :
-    ((runHist ([] : St K N T) h).get id).map Ent.isSystem = (runHistG (([] : St K N T), ([] : Map K Bool)) h).2.get id := by
-  have := runHistG_flagInv (flagInv_nil (K := K) (N := N)) h id
+    ((runHist (St.empty : St K N T) h).ents.get id).map Ent.isSystem =
+      (runHistG ((St.empty : St K N T), ([] : Map K Bool)) h).2.get id := by
+  have := runHistG_flagInv (flagInv_nil (K := K) (N := N) (T := T)) h id
   rw [runHistG_fst] at this
   exact this
 
-/-- the single step behind it: **no update — from any context, whatever `IsSystem`, `Migrate`,
-    timestamps, tags and name the in-memory entity carries (`v` is the whole of it), with any field
-    checker — changes the stored flag of any entity** -/
-theorem update_never_changes_flag (s : St K N T) (sys : Bool) (id : K) (v : Vals N T) (sn st : Bool) (x : K) :
-    ((step s (.update sys id v sn st)).st.get x).map Ent.flag = (s.get x).map Ent.flag := by
-  cases hg : s.get id with
-  | none => rw [step_update_missing hg]
-  | some e =>
-    rw [step_update_found hg]
-    cases hc : (e.isSystem && !sys) with
-    | true => simp
+/-- **the only successful operation after which an existing entity reads back another flag** is a
+    `Create` through the child store, over that entity, carrying `IsSystem = true`, **from a system
+    context** — it re-runs `CreateBaseValues` on the parent's bucket and so turns an ordinary
+    entity into a system one.  Nothing turns a system entity back, and nothing an ordinary context
+    does changes any flag. -/
+theorem flag_change_needs_system_child_create (s : St K N T) (op : Op K N T) (hok : (step s op).err = none)
+    (x : K) (e e' : Ent K N T) (hg : s.ents.get x = some e) (hg' : (step s op).st.ents.get x = some e') :
+    e'.isSystem = e.isSystem ∨
+      (∃ v lvl, op = .ccreate true x false v lvl ∧ v.flag = true ∧ e.isSystem = false ∧ e'.isSystem = true) := by
+  have keep : ∀ (id : K) (e1 : Ent K N T), (s.putEnt id e1).ents.get x = some e' → id ≠ x → e'.isSystem = e.isSystem := by
+    intro id e1 h hne
+    rw [putEnt_ents, Map.get_put] at h
+    simp only [hne, if_false] at h
+    rw [hg] at h; cases h; rfl
+  have same : ∀ (e1 : Ent K N T), (s.putEnt x e1).ents.get x = some e' → e1.isSystem = e.isSystem → e'.isSystem = e.isSystem := by
+    intro e1 h hs
+    rw [putEnt_ents, Map.get_put] at h
+    simp only [if_true] at h
+    cases h; exact hs
+  cases op with
+  | create sys id blank v =>
+    left
+    cases blank with
+    | true => rw [step_create_blank] at hok; cases hok
     | false =>
-      simp only [Bool.false_eq_true, if_false]
-      rw [Map.get_put]
+      cases hgi : s.ents.get id with
+      | some e0 => rw [step_create_exists hgi] at hok; cases hok
+      | none =>
+        rw [step_create_new hgi] at hok hg'
+        rw [(createOn_ok hok).1] at hg'
+        exact keep id _ hg' (by intro h; subst h; rw [hg] at hgi; cases hgi)
+  | ccreate sys id blank v lvl =>
+    cases blank with
+    | true => rw [step_ccreate_blank] at hok; cases hok
+    | false =>
+      cases hgi : s.ents.get id with
+      | some e0 =>
+        rw [step_ccreate_found hgi] at hok hg'
+        split at hok
+        · cases hok
+        · rename_i hl
+          rw [if_neg hl] at hg'
+          have h3 := (createOn_ok hok).2.2
+          rw [(createOn_ok hok).1] at hg'
+          by_cases hx : id = x
+          · subst hx
+            rw [hg] at hgi; cases hgi
+            rw [putEnt_ents, Map.get_put] at hg'
+            simp only [if_true] at hg'
+            cases hg'
+            rw [mkEnt_isSystem]
+            cases hf : v.flag with
+            | false => left; simp
+            | true =>
+              cases hes : e.isSystem with
+              | true => left; simp
+              | false =>
+                right
+                rw [hf] at h3
+                have hsys : sys = true := by cases sys <;> simp_all
+                subst hsys
+                exact ⟨v, lvl, rfl, hf, rfl, by simp⟩
+          · left; exact keep id _ hg' hx
+      | none =>
+        left
+        rw [step_ccreate_new hgi] at hok hg'
+        rw [(createOn_ok hok).1] at hg'
+        exact keep id _ hg' (by intro h; subst h; rw [hg] at hgi; cases hgi)
+  | update sys id v sn st so =>
+    left
+    cases hgi : s.ents.get id with
+    | none => rw [step_update_missing hgi] at hok; cases hok
+    | some e0 =>
+      rw [step_update_found hgi] at hok hg'
+      rw [(updateOn_ok hgi hok).1] at hg'
       by_cases hx : id = x
-      · subst hx; simp [hg, persist_update_flag]
+      · subst hx
+        rw [hg] at hgi; cases hgi
+        exact same _ hg' (updEnt_isSystem ..)
+      · exact keep id _ hg' hx
+  | cupdate sys id v sn st so sl lvl =>
+    left
+    cases hgi : s.ents.get id with
+    | none => rw [step_cupdate_missing hgi] at hok; cases hok
+    | some e0 =>
+      rw [step_cupdate_found hgi] at hok hg'
+      split at hok
+      · cases hok
+      · rename_i hl
+        rw [if_neg hl] at hg'
+        rw [(updateOn_ok hgi hok).1] at hg'
+        by_cases hx : id = x
+        · subst hx
+          rw [hg] at hgi; cases hgi
+          exact same _ hg' (updEnt_isSystem ..)
+        · exact keep id _ hg' hx
+  | delete sys id =>
+    left
+    rw [step_delete] at hok hg'
+    obtain ⟨e0, _, _, hd⟩ := deleteOne_ok hok
+    rw [hd, delEnt_ents, Map.get_del] at hg'
+    by_cases hx : id = x
+    · simp [hx] at hg'
+    · simp only [hx, if_false] at hg'; rw [hg] at hg'; cases hg'; rfl
+  | cdelete sys id =>
+    left
+    rw [step_cdelete] at hok hg'
+    obtain ⟨e0, _, _, hd⟩ := deleteOne_ok hok
+    rw [hd, delEnt_ents, Map.get_del] at hg'
+    by_cases hx : id = x
+    · simp [hx] at hg'
+    · simp only [hx, if_false] at hg'; rw [hg] at hg'; cases hg'; rfl
+  | ocreate id blank =>
+    left
+    rw [step_ocreate] at hg'
+    split at hg'
+    · rw [hg] at hg'; cases hg'; rfl
+    · split at hg'
+      · rw [hg] at hg'; cases hg'; rfl
+      · rw [hg] at hg'; cases hg'; rfl
+  | odelete sys o =>
+    left
+    by_cases hm : o ∈ s.owners
+    · rw [step_odelete_found hm] at hok hg'
+      split at hok
+      · cases hok
+      · rename_i ha
+        rw [if_neg ha] at hg'
+        rw [get_unlinkAll, Map.get_delAll] at hg'
+        by_cases hx : x ∈ refs s o
+        · simp [hx] at hg'
+        · simp only [hx, if_false, hg, Option.map_some] at hg'; cases hg'; rfl
+    · rw [step_odelete_missing hm] at hok; cases hok
+  | deleteWhere sys q =>
+    left
+    rw [step_deleteWhere] at hok hg'
+    split at hok
+    · cases hok
+    · rename_i ha
+      rw [if_neg ha] at hg'
+      rw [Map.get_delAll] at hg'
+      by_cases hx : x ∈ matching s q
+      · simp [hx] at hg'
+      · simp only [hx, if_false, hg] at hg'; cases hg'; rfl
+  | link sid oid =>
+    left
+    cases hgi : s.ents.get sid with
+    | none => rw [step_link_missing hgi] at hok; cases hok
+    | some e0 =>
+      rw [step_link_found hgi] at hok hg'
+      split at hok
+      · rename_i hm
+        rw [if_pos hm] at hg'
+        by_cases hx : sid = x
+        · subst hx
+          rw [hg] at hgi; cases hgi
+          exact same _ hg' rfl
+        · exact keep sid _ hg' hx
+      · cases hok
+  | unlink sid oid =>
+    left
+    cases hgi : s.ents.get sid with
+    | none => rw [step_unlink_missing hgi] at hok; cases hok
+    | some e0 =>
+      rw [step_unlink_found hgi] at hg'
+      by_cases hx : sid = x
+      · subst hx
+        rw [hg] at hgi; cases hgi
+        exact same _ hg' rfl
+      · exact keep sid _ hg' hx
+  | read id => left; rw [step_read] at hg'; rw [hg] at hg'; cases hg'; rfl
+
+/-- the single step behind it: **no update — through S or through the child store, from any
+    context, whatever `IsSystem`, `Migrate`, timestamps, tags, name and owner the in-memory entity
+    carries (`v` is the whole of it), with any field checker, failing or not — changes the stored
+    flag of any entity** -/
+theorem update_never_changes_flag (s : St K N T) (sys : Bool) (id : K) (v : Vals K N T) (sn st so sl : Bool)
+    (lvl : N) (x : K) :
+    ((step s (.update sys id v sn st so)).st.ents.get x).map Ent.flag = (s.ents.get x).map Ent.flag ∧
+    ((step s (.cupdate sys id v sn st so sl lvl)).st.ents.get x).map Ent.flag = (s.ents.get x).map Ent.flag := by
+  have key : ∀ (e : Ent K N T) (l : Option (Bool × N)), s.ents.get id = some e →
+      ((updateOn s sys id v sn st so l e).st.ents.get x).map Ent.flag = (s.ents.get x).map Ent.flag := by
+    intro e l hg
+    rw [updateOn_eq hg]
+    have hput : ((s.putEnt id (updEnt v sn st so l e)).ents.get x).map Ent.flag = (s.ents.get x).map Ent.flag := by
+      rw [putEnt_ents, Map.get_put]
+      by_cases hx : id = x
+      · subst hx; simp [hg, updEnt_flag]
       · simp [hx]
+    split
+    · rfl
+    · split
+      · exact hput
+      · exact hput
+  cases hg : s.ents.get id with
+  | none => rw [step_update_missing hg, step_cupdate_missing hg]; exact ⟨rfl, rfl⟩
+  | some e =>
+    rw [step_update_found hg, step_cupdate_found hg]
+    refine ⟨key e none hg, ?_⟩
+    split
+    · rfl
+    · exact key e _ hg
 
 /-- the code path behind *that*: on an update `SetBaseValues` takes the `UpdateBaseValues` branch
     (it looks at `ctx.IsCreate` only, never at the entity's `Migrate`), and that branch does not
     touch `isSystem` nor `createdAt` -/
-theorem setBaseValues_update_keeps (v : Vals N T) (st : Bool) (e : Ent N T) :
+theorem setBaseValues_update_keeps (v : Vals K N T) (st : Bool) (e : Ent K N T) :
     (setBaseValues false v st e).flag = e.flag ∧ (setBaseValues false v st e).created = e.created ∧
     (setBaseValues false v st e).name = e.name := ⟨rfl, rfl, rfl⟩
+
+/-- and on a create `CreateBaseValues` writes the key only when the entity carries the flag: re-run
+    on an existing bucket it never clears a stored flag -/
+theorem createBaseValues_never_clears (v : Vals K N T) (lvl : Option N) (e : Ent K N T) (h : e.isSystem = true) :
+    (mkEnt v lvl e).isSystem = true := by
+  rw [mkEnt_isSystem, h]; simp
 
 /-! ## ordinary entities are unaffected -/
 
 /-- the same operation issued from the other kind of context -/
 def withCtx (sys : Bool) : Op K N T → Op K N T
   | .create _ id blank v => .create sys id blank v
-  | .update _ id v sn st => .update sys id v sn st
+  | .update _ id v sn st so => .update sys id v sn st so
   | .delete _ id => .delete sys id
+  | .ccreate _ id blank v lvl => .ccreate sys id blank v lvl
+  | .cupdate _ id v sn st so sl lvl => .cupdate sys id v sn st so sl lvl
+  | .cdelete _ id => .cdelete sys id
+  | .odelete _ o => .odelete sys o
+  | .deleteWhere _ q => .deleteWhere sys q
+  | .ocreate id blank => .ocreate id blank
+  | .link a b => .link a b
+  | .unlink a b => .unlink a b
   | .read id => .read id
 
-/-- the operation concerns an ordinary entity: it does not create with the flag set and the
-    entity it addresses (if any) is stored without the flag -/
+/-- the operation concerns ordinary entities only: it does not create with the flag set and every
+    entity it addresses or reaches (cascade, query) is stored without the flag -/
 def Ordinary (s : St K N T) : Op K N T → Prop
   | .create _ _ _ v => v.flag = false
-  | .update _ id _ _ _ => ∀ e, s.get id = some e → e.isSystem = false
-  | .delete _ id => ∀ e, s.get id = some e → e.isSystem = false
-  | .read _ => True
+  | .ccreate _ id _ v _ => v.flag = false ∧ ∀ e, s.ents.get id = some e → e.isSystem = false
+  | .update _ id _ _ _ _ => ∀ e, s.ents.get id = some e → e.isSystem = false
+  | .cupdate _ id _ _ _ _ _ _ => ∀ e, s.ents.get id = some e → e.isSystem = false
+  | .delete _ id => ∀ e, s.ents.get id = some e → e.isSystem = false
+  | .cdelete _ id => ∀ e, s.ents.get id = some e → e.isSystem = false
+  | .odelete _ o => ∀ y ∈ refs s o, ∀ e, s.ents.get y = some e → e.isSystem = false
+  | .deleteWhere _ q => ∀ y ∈ matching s q, ∀ e, s.ents.get y = some e → e.isSystem = false
+  | _ => True
 
-/-- **ordinary entities are unaffected by the constraint**: on them every operation behaves the
-    same from an ordinary and from a system context (same error, same resulting state) -/
+/-- **ordinary entities are unaffected by the constraint**: on them every operation — direct,
+    through the child store, cascading or by query — behaves the same from an ordinary and from a
+    system context (same error, same resulting state) -/
 theorem ordinary_unaffected (s : St K N T) (op : Op K N T) (h : Ordinary s op) (c1 c2 : Bool) :
     step s (withCtx c1 op) = step s (withCtx c2 op) := by
+  have hcreate : ∀ (id : K) (v : Vals K N T) (lvl : Option N) (e0 : Ent K N T), v.flag = false → e0.isSystem = false →
+      createOn s c1 id v lvl e0 = createOn s c2 id v lvl e0 := by
+    intro id v lvl e0 hv he
+    rw [createOn_eq, createOn_eq, hv, he]; simp
+  have hupdate : ∀ (id : K) (v : Vals K N T) (sn st so : Bool) (l : Option (Bool × N)) (e : Ent K N T),
+      s.ents.get id = some e → e.isSystem = false →
+      updateOn s c1 id v sn st so l e = updateOn s c2 id v sn st so l e := by
+    intro id v sn st so l e hg he
+    rw [updateOn_eq hg, updateOn_eq hg, he]; simp
+  have hdelete : ∀ id : K, (∀ e, s.ents.get id = some e → e.isSystem = false) → deleteOne s c1 id = deleteOne s c2 id := by
+    intro id hh
+    cases hg : s.ents.get id with
+    | none => rw [deleteOne_missing hg, deleteOne_missing hg]
+    | some e => rw [deleteOne_found hg, deleteOne_found hg, hh e hg]; simp
   cases op with
   | create sys id blank v =>
     simp only [Ordinary] at h
@@ -180,40 +738,59 @@ theorem ordinary_unaffected (s : St K N T) (op : Op K N T) (h : Ordinary s op) (
     cases blank with
     | true => rw [step_create_blank, step_create_blank]
     | false =>
-      cases hg : s.get id with
+      cases hg : s.ents.get id with
       | some e => rw [step_create_exists hg, step_create_exists hg]
-      | none => rw [step_create_new hg, step_create_new hg, h]; simp
-  | update sys id v sn st =>
+      | none => rw [step_create_new hg, step_create_new hg]; exact hcreate id v none _ h rfl
+  | ccreate sys id blank v lvl =>
+    simp only [Ordinary] at h
     simp only [withCtx]
-    cases hg : s.get id with
+    cases blank with
+    | true => rw [step_ccreate_blank, step_ccreate_blank]
+    | false =>
+      cases hg : s.ents.get id with
+      | some e =>
+        rw [step_ccreate_found hg, step_ccreate_found hg]
+        split
+        · rfl
+        · exact hcreate id v _ e h.1 (h.2 e hg)
+      | none => rw [step_ccreate_new hg, step_ccreate_new hg]; exact hcreate id v _ _ h.1 rfl
+  | update sys id v sn st so =>
+    simp only [withCtx]
+    cases hg : s.ents.get id with
     | none => rw [step_update_missing hg, step_update_missing hg]
-    | some e =>
-      have := h e hg
-      rw [step_update_found hg, step_update_found hg, this]; simp
-  | delete sys id =>
+    | some e => rw [step_update_found hg, step_update_found hg]; exact hupdate id v sn st so none e hg (h e hg)
+  | cupdate sys id v sn st so sl lvl =>
     simp only [withCtx]
-    cases hg : s.get id with
-    | none => rw [step_delete_missing hg, step_delete_missing hg]
+    cases hg : s.ents.get id with
+    | none => rw [step_cupdate_missing hg, step_cupdate_missing hg]
     | some e =>
-      have := h e hg
-      rw [step_delete_found hg, step_delete_found hg, this]; simp
+      rw [step_cupdate_found hg, step_cupdate_found hg]
+      split
+      · rfl
+      · exact hupdate id v sn st so _ e hg (h e hg)
+  | delete sys id => simp only [withCtx, step_delete]; exact hdelete id h
+  | cdelete sys id => simp only [withCtx, step_cdelete]; exact hdelete id h
+  | odelete sys o =>
+    simp only [withCtx, step, cascadeCtx]
+    rw [delMany_ctx_irrelevant s (refs s o) h c1 c2]
+  | deleteWhere sys q =>
+    simp only [withCtx, step]
+    rw [delMany_ctx_irrelevant s (matching s q) h c1 c2]
+  | ocreate id blank => rfl
+  | link a b => rfl
+  | unlink a b => rfl
   | read id => rfl
 
 /-! ## the model refines the specification, for every history -/
 
-/-- a `Create` the spec refuses because of the flag (and for no other reason) -/
-def refusedCreate (s : SSt K N T) : Op K N T → Bool
-  | .create sys id blank v => !blank && (s.get id).isNone && v.flag && !sys
-  | _ => false
-
 /-- the spec's reading of a transaction body: a failing operation changes nothing; in keep-going
-    mode the caller carries on unless a create was refused -/
+    mode the caller carries on after an ignorable failure -/
 def srunOps (k : Bool) : SSt K N T → List (Op K N T) → SSt K N T × Bool
   | s, [] => (s, false)
   | s, op :: ops =>
     match sstep s op with
-    | some s' => srunOps k s' ops
-    | none => if k && !refusedCreate s op then srunOps k s ops else (s, true)
+    | .ok s' => srunOps k s' ops
+    | .fail ignorable => if k && ignorable then srunOps k s ops else (s, true)
 
 def scommitTx (s : SSt K N T) (tx : Bool × List (Op K N T)) : SSt K N T :=
   let r := srunOps tx.1 s tx.2
@@ -221,133 +798,130 @@ def scommitTx (s : SSt K N T) (tx : Bool × List (Op K N T)) : SSt K N T :=
 
 def srunHist (s : SSt K N T) (txs : List (Bool × List (Op K N T))) : SSt K N T := txs.foldl scommitTx s
 
-theorem err_sysCreate_iff (s : St K N T) (op : Op K N T) :
-    (step s op).err = some .sysCreate ↔ refusedCreate (abs s) op = true := by
-  cases op with
-  | create sys id blank v =>
-    cases blank with
-    | true => rw [step_create_blank]; simp [refusedCreate]
-    | false =>
-      cases hg : s.get id with
-      | some e => rw [step_create_exists hg]; simp [refusedCreate, get_abs, hg]
-      | none =>
-        rw [step_create_new hg]
-        cases hc : (v.flag && !sys) with
-        | true =>
-          simp only [if_true, true_iff, refusedCreate, get_abs, hg]
-          simp only [Bool.and_eq_true] at hc ⊢
-          simp [hc.1, hc.2]
-        | false =>
-          simp only [Bool.false_eq_true, if_false, refusedCreate, get_abs, hg]
-          cases hf : v.flag <;> cases sys <;> simp_all
-  | update sys id v sn st =>
-    cases hg : s.get id with
-    | none => rw [step_update_missing hg]; simp [refusedCreate]
-    | some e =>
-      rw [step_update_found hg]
-      cases hc : (e.isSystem && !sys) <;> simp [refusedCreate]
-  | delete sys id =>
-    cases hg : s.get id with
-    | none => rw [step_delete_missing hg]; simp [refusedCreate]
-    | some e =>
-      rw [step_delete_found hg]
-      cases hc : (e.isSystem && !sys) <;> simp [refusedCreate]
-  | read id => simp [step, refusedCreate]
-
-theorem runOps_refines (k : Bool) (s : St K N T) (ops : List (Op K N T)) :
+theorem runOps_refines (k : Bool) (s : St K N T) (hw : WF s) (ops : List (Op K N T)) :
     (runOps k s ops).2 = (srunOps k (abs s) ops).2 ∧
-    ((runOps k s ops).2 = false → abs (runOps k s ops).1 = (srunOps k (abs s) ops).1) := by
+    ((runOps k s ops).2 = false → abs (runOps k s ops).1 = (srunOps k (abs s) ops).1 ∧ WF (runOps k s ops).1) := by
   induction ops generalizing s with
-  | nil => exact ⟨rfl, fun _ => rfl⟩
+  | nil => exact ⟨rfl, fun _ => ⟨rfl, hw⟩⟩
   | cons op ops ih =>
-    have href := step_refines s op
+    have href := step_refines s hw op
     cases he : (step s op).err with
     | none =>
       rw [he] at href; simp only at href
       rw [runOps_cons_ok he]
       simp only [srunOps, href]
-      exact ih _
+      exact ih _ (step_wf hw op he)
     | some e =>
       rw [he] at href; simp only at href
       rw [runOps_cons_err he]
       simp only [srunOps, href]
-      have hiff := err_sysCreate_iff s op
-      rw [he] at hiff
-      by_cases hc : e = .sysCreate
-      · subst hc
-        have : refusedCreate (abs s) op = true := hiff.mp rfl
-        simp [this]
-      · have hn : refusedCreate (abs s) op = false := by
-          cases hr : refusedCreate (abs s) op with
-          | false => rfl
-          | true => exact absurd (Option.some.inj (hiff.mpr hr)) hc
-        have hst := step_err_state he hc
-        rw [hn, hst]
+      cases hi : e.ignorable with
+      | false => simp
+      | true =>
+        rw [step_err_state he hi]
         cases k with
         | false => simp
-        | true => simp [hc]; exact ih s
+        | true => simpa using ih s hw
 
-theorem commitTx_refines (s : St K N T) (tx : Bool × List (Op K N T)) :
-    abs (commitTx s tx) = scommitTx (abs s) tx := by
-  obtain ⟨h1, h2⟩ := runOps_refines tx.1 s tx.2
+theorem commitTx_refines (s : St K N T) (hw : WF s) (tx : Bool × List (Op K N T)) :
+    abs (commitTx s tx) = scommitTx (abs s) tx ∧ WF (commitTx s tx) := by
+  obtain ⟨h1, h2⟩ := runOps_refines tx.1 s hw tx.2
   unfold commitTx scommitTx
   simp only [← h1]
   cases hf : (runOps tx.1 s tx.2).2 with
-  | true => simp
+  | true => simp [hw]
   | false => simp only [Bool.false_eq_true, if_false]; exact h2 hf
 
 /-- **for every history the committed state of the model is the state the specification
-    prescribes** (entities, their system flag, their names) -/
+    prescribes** (entities, their system flag, names, tags, timestamps, owners, child data; the
+    owners) -/
 theorem model_refines_spec (h : List (Bool × List (Op K N T))) :
-    abs (runHist ([] : St K N T) h) = srunHist ([] : SSt K N T) h := by
-  have : ∀ (s : St K N T), abs (runHist s h) = srunHist (abs s) h := by
+    abs (runHist (St.empty : St K N T) h) = srunHist (SSt.empty : SSt K N T) h := by
+  have : ∀ (s : St K N T), WF s → abs (runHist s h) = srunHist (abs s) h := by
     induction h with
-    | nil => intro s; rfl
+    | nil => intro s _; rfl
     | cons tx txs ih =>
-      intro s
+      intro s hw
       unfold runHist srunHist
       simp only [List.foldl_cons]
-      have := ih (commitTx s tx)
+      have := ih (commitTx s tx) (commitTx_refines s hw tx).2
       unfold runHist srunHist at this
-      rw [this, commitTx_refines]
-  exact this []
+      rw [this, (commitTx_refines s hw tx).1]
+  exact this St.empty (by intro p hp; cases hp)
 
 end
 
 /-! ## non-vacuity (ids, names, timestamps = Nat) -/
 
-def vals (flag migrate : Bool) (name : Nat) : Vals Nat Nat :=
-  { flag := flag, migrate := migrate, cAt := 1000, uAt := 2000, tags := some name, name := name }
+instance : KeyOrd Nat := ⟨fun a b => decide (a ≤ b)⟩
 
-/-- system ctx creates system entity 1 (migrated: carries its own timestamps) and ordinary entity 2;
-    an ordinary transaction tries to update 1 with a flipped flag (ignored error, committed),
-    updates 2 carrying IsSystem = true AND Migrate = true, tries to delete 1; a system transaction
-    renames 1 -/
+def vals (flag migrate : Bool) (name : Nat) (owner : Option Nat := none) : Vals Nat Nat Nat :=
+  { flag := flag, migrate := migrate, cAt := 1000, uAt := 2000, tags := some name, name := name, owner := owner }
+
+/-- system ctx creates owner 7, system entity 1 (migrated: carries its own timestamps) referring to
+    it and ordinary entity 2 referring to it too; an ordinary transaction tries to update 1 with a
+    flipped flag (ignored error, committed), updates 2 carrying IsSystem = true AND Migrate = true,
+    tries to delete 1; a system transaction renames 1 -/
 def demoHist : List (Bool × List (Op Nat Nat Nat)) :=
-  [(false, [.create true 1 false (vals true true 10), .create false 2 false (vals false false 20)]),
-   (true, [.update false 1 (vals false false 11) true true, .update false 2 (vals true true 21) true false,
+  [(false, [.ocreate 7 false, .create true 1 false (vals true true 10 (some 7)),
+            .create false 2 false (vals false false 20 (some 7))]),
+   (true, [.update false 1 (vals false false 11) true true false, .update false 2 (vals true true 21) true false false,
            .delete false 1]),
-   (false, [.update true 1 (vals false true 12) true true])]
+   (false, [.update true 1 (vals false true 12) true true false])]
 
-example : (runHist [] demoHist).get 1 =
-    some { flag := some true, name := 12, tags := some 12, created := .given 1000, updated := .now } := by decide
-example : (runHist [] demoHist).get 2 =
-    some { flag := none, name := 21, tags := some 20, created := .now, updated := .now } := by decide
-example : (runHistG ([], []) demoHist).2.get 1 = some true ∧ (runHistG ([], []) demoHist).2.get 2 = some false := by decide
-example : (step (runHist [] demoHist) (.delete false 1)).err = some .sysDelete := by decide
-example : (step (runHist [] demoHist) (.create false 3 false (vals true false 30))).err = some .sysCreate := by decide
-example : Ordinary (runHist [] demoHist) (.update false 2 (vals true true 5) true true) := by
+example : (runHist St.empty demoHist).ents.get 1 =
+    some { flag := some true, name := 12, tags := some 12, created := .given 1000, updated := .now,
+           owner := some 7, level := none, peers := [] } := by decide
+example : (runHist St.empty demoHist).ents.get 2 =
+    some { flag := none, name := 21, tags := some 20, created := .now, updated := .now, owner := some 7,
+           level := none, peers := [] } := by decide
+example : (runHistG (St.empty, []) demoHist).2.get 1 = some true ∧ (runHistG (St.empty, []) demoHist).2.get 2 = some false := by
+  decide
+example : (step (runHist St.empty demoHist) (.delete false 1)).err = some .sysDelete := by decide
+example : (step (runHist St.empty demoHist) (.create false 3 false (vals true false 30))).err = some .sysCreate := by decide
+
+/-- the indirect paths on the same state: deleting owner 7 from an ordinary context is refused
+    because system entity 1 refers to it (it is the first referrer in id order, so nothing has been
+    deleted when the cascade stops); `DeleteWhere(true)`, a child-store create over 1, a
+    child-store delete: refused; a keep-going ordinary transaction of such attempts commits nothing;
+    from a system context the cascade goes through and removes both referrers -/
+example : (step (runHist St.empty demoHist) (.odelete false 7)).err = some .viaSysDelete := by decide
+example : (step (runHist St.empty demoHist) (.deleteWhere false .all)).err = some .viaSysDelete := by decide
+example : (step (runHist St.empty demoHist) (.ccreate false 1 false (vals false false 5) 9)).err = some .sysCreate := by decide
+example : (step (runHist St.empty demoHist) (.cdelete false 1)).err = some .sysDelete := by decide
+example : (commitTx (runHist St.empty demoHist) (true, [.odelete false 7, .deleteWhere false .all,
+    .ccreate false 1 false (vals false false 5) 9])).ents.get 1 = (runHist St.empty demoHist).ents.get 1 := by decide
+example : ((step (runHist St.empty demoHist) (.odelete true 7)).st.ents.get 1,
+    (step (runHist St.empty demoHist) (.odelete true 7)).st.ents.get 2,
+    (step (runHist St.empty demoHist) (.odelete true 7)).st.owners) = (none, none, []) := by decide
+/-- the promotion `flag_change_needs_system_child_create` describes: a child-store create carrying
+    the flag over ordinary entity 2, from a system context, makes 2 a system entity; from an
+    ordinary context it is refused -/
+example : ((step (runHist St.empty demoHist) (.ccreate true 2 false (vals true false 5 (some 7)) 9)).st.ents.get 2).map Ent.isSystem
+    = some true := by decide
+example : (step (runHist St.empty demoHist) (.ccreate false 2 false (vals true false 5 (some 7)) 9)).err = some .sysCreate := by
+  decide
+/-- and the cascade stops being safe the moment the nested delete runs under another context than
+    the caller's: with the referrers deleted from a system context the system entity is gone -/
+example : ((delMany true (runHist St.empty demoHist) (refs (runHist St.empty demoHist) 7)).1.ents.get 1) = none := by decide
+example : Ordinary (runHist St.empty demoHist) (.update false 2 (vals true true 5) true true true) := by
   intro e he
-  have : (runHist [] demoHist).get 2 =
-      some { flag := none, name := 21, tags := some 20, created := .now, updated := .now } := by decide
+  have : (runHist St.empty demoHist).ents.get 2 =
+      some { flag := none, name := 21, tags := some 20, created := .now, updated := .now, owner := some 7,
+             level := none, peers := [] } := by decide
   rw [this] at he; cases he; rfl
 
 end StorageModel.Properties.C16
 
 #print axioms StorageModel.Properties.C16.system_needs_system_ctx
 #print axioms StorageModel.Properties.C16.system_needs_system_ctx_tx
+#print axioms StorageModel.Properties.C16.ordinary_step_preserves_system
+#print axioms StorageModel.Properties.C16.ordinary_tx_preserves_system
+#print axioms StorageModel.Properties.C16.ordinary_history_preserves_system
+#print axioms StorageModel.Properties.C16.cascade_never_deletes_system
 #print axioms StorageModel.Properties.C16.system_ctx_allowed
 #print axioms StorageModel.Properties.C16.flag_immutable
+#print axioms StorageModel.Properties.C16.flag_change_needs_system_child_create
 #print axioms StorageModel.Properties.C16.update_never_changes_flag
 #print axioms StorageModel.Properties.C16.ordinary_unaffected
 #print axioms StorageModel.Properties.C16.model_refines_spec
